@@ -18,7 +18,8 @@
         control symbols; any [a_delta] (argument parsed in / out of math mode),
       - inline math [$ … $], [\( … \)] and display math [\[ … \]] wherever the
         parsing state is not in math mode (so: no math nested in math, except
-        inside an argument that leaves math mode).
+        inside an argument that leaves math mode),
+      - comments [% text newline whitespace] (stage (d), first half).
 
     Whitespace is a FIELD of the item it precedes ([ws]: the token's
     [pre_space]) and of each body ([tr]: the whitespace before the closing
@@ -41,7 +42,8 @@ Inductive item :=
 | Text (ws cs : str)                                  (* whitespace, then a run of inert characters *)
 | Grp (ws : str) (body : list item) (tr : str)        (* ws { body tr } *)
 | Mac (ws name post : str) (args : list item)         (* ws \name post {arg}...{arg} *)
-| Math (ws : str) (k : mathkind) (body : list item) (tr : str).   (* ws $ body tr $ *)
+| Math (ws : str) (k : mathkind) (body : list item) (tr : str)    (* ws $ body tr $ *)
+| Cmt (ws text post : str).                            (* ws % text post   (post = newline, then whitespace) *)
 
 Record doc := { d_items : list item; d_trail : str }.
 
@@ -52,13 +54,14 @@ Fixpoint unparse_item (i : item) : str :=
   | Grp ws b tr => ws ++ 123%N :: flat_map unparse_item b ++ tr ++ [125%N]
   | Mac ws name post args => ws ++ 92%N :: name ++ post ++ flat_map unparse_item args
   | Math ws k b tr => ws ++ m_open k ++ flat_map unparse_item b ++ tr ++ m_close k
+  | Cmt ws text post => ws ++ 37%N :: text ++ post
   end.
 Definition unparse_items (l : list item) : str := flat_map unparse_item l.
 Definition unparse (d : doc) : str := unparse_items (d_items d) ++ d_trail d.
 
 Definition ilen (i : item) : nat := length (unparse_item i).
 Definition item_ws (i : item) : str :=
-  match i with Text ws _ | Grp ws _ _ | Mac ws _ _ _ | Math ws _ _ _ => ws end.
+  match i with Text ws _ | Grp ws _ _ | Mac ws _ _ _ | Math ws _ _ _ | Cmt ws _ _ => ws end.
 
 (** * Side conditions *)
 
@@ -127,6 +130,12 @@ Fixpoint ok_item (cx : context) (ps : pstate) (i : item) (nxt : option N) {struc
                       end
          | _ => true
          end
+  | Cmt ws text post =>
+      (* the comment text has no newline; the post-space is the newline and the
+         whitespace after it (whitespace after a comment belongs to the comment) *)
+      ws_ok ws && negb (mem_c 10 text) && ws_ok post
+      && match post with 10%N :: _ => true | _ => false end
+      && negb (otest is_space nxt)
   | Mac ws name post args =>
       ws_ok ws && ws_ok post && name_ok name post
       && match get_macro_spec cx name with
@@ -222,6 +231,8 @@ Fixpoint node_of (cx : context) (ps : pstate) (p0 : nat) (i : item) {struct i} :
       end in
   match i with
   | Text _ _ => None
+  | Cmt _ text post =>
+      Some (NComment p0 (p0 + 1 + length text + length post) (ps_mode ps) text post)
   | Grp _ b tr =>
       let r := body ps (S p0) cs_empty b in
       Some (NGroup p0 (snd r + length tr + 1) (ps_mode ps) [123%N] [125%N]
@@ -364,6 +375,7 @@ Fixpoint wsv (i i' : item) {struct i} : Prop :=
   | Grp ws b tr, Grp ws' b' tr' => wse ws ws' /\ wse tr tr' /\ all2 b b'
   | Mac ws nm post a, Mac ws' nm' post' a' => wse ws ws' /\ nm = nm' /\ wse post post' /\ all2 a a'
   | Math ws k b tr, Math ws' k' b' tr' => wse ws ws' /\ k = k' /\ wse tr tr' /\ all2 b b'
+  | Cmt ws text post, Cmt ws' text' post' => wse ws ws' /\ text = text' /\ wse post post'
   | _, _ => False
   end.
 Definition wsv_items : list item -> list item -> Prop :=
